@@ -390,6 +390,15 @@ Definition h_contains_or_put (h : heap) (q : hlru) (k : key) (v : val)
   if b then HOk (h, q, true, None)
   else hdo (h2, q2, pr) <- h_put h q k v; HOk (h2, q2, false, Some pr).
 
+(** the value of an in-flight node is swapped ([swap_value]) *)
+Definition h_swap_value (h : heap) (n : addr) (v : val) : hres (heap * val) :=
+  hdo (k, ov, p, x) <- hread h n;
+  match ov with
+  | Some old => HOk (hupd h n (Node k (Some v) p x), old)
+  | None => HErr EUninit
+  end.
+
+
 (** ** the public operations as one step function; histories *)
 Inductive hop :=
 | HPut (k : key) (v : val)
